@@ -15,7 +15,9 @@ package props
 import (
 	"bytes"
 	"fmt"
+	"regexp"
 	"strings"
+	"unicode/utf8"
 
 	"verifharness/core"
 )
@@ -28,6 +30,9 @@ type c11Knobs struct {
 	deep      bool // allow deep *well-formed* search nesting (quadratic logging cost)
 	starttls  bool // allow STARTTLS
 	done      bool // allow a DONE line outside IDLE
+	listutf8  bool // allow invalid UTF-8 in LIST / LSUB lines
+	seqzero   bool // allow 4294967296 (a message number that wraps to 0)
+	partwrap  bool // allow <n.m> partials whose sum overflows int64
 	user      string
 	pass      string
 }
@@ -221,11 +226,14 @@ func c11Size(v int, small, mid, big, huge int) int {
 	return big + x%huge
 }
 
-func c11Digits(r *core.Rand) string {
+func c11Digits(r *core.Rand, kn c11Knobs) string {
 	switch r.Intn(8) {
 	case 0:
 		return "4294967295"
 	case 1:
+		if !kn.seqzero {
+			return "4294967297"
+		}
 		return "4294967296"
 	case 2:
 		return "9223372036854775807"
@@ -332,10 +340,10 @@ func c11Mutate(b []byte, mut int, r *core.Rand, size int, tag string, kn c11Knob
 		}
 		if len(runs) == 0 {
 			n := body()
-			return append(append(append([]byte(nil), b[:n]...), (" " + c11Digits(r))...), b[n:]...)
+			return append(append(append([]byte(nil), b[:n]...), (" "+c11Digits(r, kn))...), b[n:]...)
 		}
 		x := runs[r.Intn(len(runs))]
-		return append(append(append([]byte(nil), b[:x[0]]...), c11Digits(r)...), b[x[1]:]...)
+		return append(append(append([]byte(nil), b[:x[0]]...), c11Digits(r, kn)...), b[x[1]:]...)
 	case 4: // nesting depth
 		return c11Nest(r.Intn(12), c11Size(size, 64, 5000, 100000, 900000), tag, kn)
 	case 5: // quoted string games
@@ -354,7 +362,7 @@ func c11Mutate(b []byte, mut int, r *core.Rand, size int, tag string, kn c11Knob
 				lit = "{1}\r\nz"
 			}
 		case 1:
-			lit = "{" + c11Digits(r) + "}\r\n" + data
+			lit = "{" + c11Digits(r, kn) + "}\r\n" + data
 		case 2:
 			lit = "{-1}\r\n" + data
 		case 3:
@@ -488,58 +496,6 @@ func c11Mutate(b []byte, mut int, r *core.Rand, size int, tag string, kn c11Knob
 	return b
 }
 
-// c11Sanitise removes, line by line, the input classes that are behind knobs:
-// a quoted string left open at a line end and LF without CR.  It works on the
-// physical lines of the byte stream (what a line is for the server may differ when a
-// literal ends in the middle of a line; those rare cases are told apart at run time).
-func c11Sanitise(b []byte, kn c11Knobs) []byte {
-	if kn.openquote && kn.barelf {
-		return b
-	}
-	out := make([]byte, 0, len(b)+8)
-	inq, esc := false, false
-	endLine := func() { // called with the LF (or lone CR) not yet written
-		hasCR := len(out) > 0 && out[len(out)-1] == '\r'
-		if hasCR {
-			out = out[:len(out)-1]
-		}
-		if !kn.openquote && inq {
-			// close the string in front of the line end
-			if esc {
-				out = append(out, 'x')
-			}
-			out = append(out, '"')
-		}
-		if hasCR || !kn.barelf {
-			out = append(out, '\r')
-		}
-		out = append(out, '\n')
-		inq, esc = false, false
-	}
-	for i := 0; i < len(b); i++ {
-		c := b[i]
-		if c == '\n' {
-			endLine()
-			continue
-		}
-		if !kn.barelf && c == '\r' && (i+1 >= len(b) || b[i+1] != '\n') {
-			// a lone CR becomes a line end, to keep the line structure unambiguous
-			endLine()
-			continue
-		}
-		switch {
-		case inq && esc:
-			esc = false
-		case inq && c == '\\':
-			esc = true
-		case c == '"':
-			inq = !inq
-		}
-		out = append(out, c)
-	}
-	return out
-}
-
 // c11Build returns the bytes of one "g" action.
 func c11Build(a core.Action, step int, kn c11Knobs) []byte {
 	tag := fmt.Sprintf("g%d", step)
@@ -552,8 +508,25 @@ func c11Build(a core.Action, step int, kn c11Knobs) []byte {
 	if !kn.lit0 {
 		b = c11NoZeroLiteral(b)
 	}
-	return c11Sanitise(b, kn)
+	if !kn.partwrap {
+		// recorded defect: BODY[]<n.m> with n+m beyond int64 panics
+		b = c11PartialRe.ReplaceAll(b, []byte("<$1.4294967295>"))
+	}
+	if !kn.listutf8 && c11ListRe.Match(b) && !utf8.Valid(b) {
+		// recorded defect: LIST / LSUB arguments that are not UTF-8 reach
+		// regexp.MustCompile and panic
+		b = append([]byte(nil), b...)
+		for i, c := range b {
+			if c >= 0x80 {
+				b[i] = 'u'
+			}
+		}
+	}
+	return b
 }
+
+var c11PartialRe = regexp.MustCompile(`<([0-9]+)\.[0-9]{19,}>`)
+var c11ListRe = regexp.MustCompile(`(?i)(LIST|LSUB)`)
 
 // c11NoZeroLiteral rewrites "{0" (any number of zeros) followed by a non-digit to "{1".
 func c11NoZeroLiteral(b []byte) []byte {
